@@ -97,6 +97,16 @@ Example C05_nonvacuous :
   related (Some 0) (Some 0) (IPadButton 0) (IPadButton 0) = true /\ related None None (IKey 1 0) (IMotion 0) = false.
 Proof. repeat split. Qed.
 
+(* ---- app stage: the executable judgement of coq/Check is sound for the model on every scenario of the profile, and transfers
+   to every trace that agrees with the model's run ---- *)
+From BEI Require Check.C05c Proofs.JudgeC05P.
+Theorem C05_app_judgement_sound : forall sc, JudgeC05P.profile_C05b sc = true -> C05c.ok5 (sc, App.trace (App.run sc)) = 0%Z.
+Proof. exact JudgeC05P.C05_app_judgement_sound. Qed.
+
+Theorem C05_app_judgement_transfer : forall sc t, JudgeC05P.profile_C05b sc = true -> App.agree_full (sc, t) = true -> C05c.ok5 (sc, t) = 0%Z.
+Proof. exact JudgeC05P.C05_app_judgement_transfer. Qed.
+
+
 Print Assumptions C05_consume_hides.
 Print Assumptions C05_consume_frame.
 Print Assumptions C05_consume_all_hides.
@@ -109,3 +119,5 @@ Print Assumptions C05_read_in_frame.
 Print Assumptions C05_consumed_set_shape.
 Print Assumptions C05_every_read_of_a_frame.
 Print Assumptions C05_every_read_of_an_update.
+Print Assumptions C05_app_judgement_sound.
+Print Assumptions C05_app_judgement_transfer.
